@@ -30,9 +30,11 @@ EXTENDS Naturals, Integers, Sequences, FiniteSets, TLC, Json
 CONSTANTS N, MaxAccounts, MaxOps, BigOnly     \* BigOnly: only large revoker sets with high thresholds (revocation by many shares), one credential shape
 
 Revokers == 1..N
-Attrs == {0, 8}
+Attrs == {0, 3, 8}     \* three attributes: the revealed ones may lie below, between and above the hidden ones
 Counters == {0, 1, MaxAccounts, MaxAccounts + 1}
-Perturbations == {"none", "bitflips", "other_ip", "other_ar_key", "other_global", "other_address", "swap_ar_data", "expiry_passed"}
+(* "extra_sharing_coeff": the holder appends a (neutral) commitment to one more coefficient of the polynomial that shares the secret identity credential than the
+   revocation threshold allows, and signs the result with the account keys: with a polynomial of higher degree, threshold many revokers could no longer reconstruct *)
+Perturbations == {"none", "bitflips", "other_ip", "other_ar_key", "other_global", "other_address", "swap_ar_data", "expiry_passed", "extra_sharing_coeff"}
 
 VARIABLES idobj, cred, hist
 ivars == <<idobj, cred, hist>>
@@ -52,7 +54,7 @@ Create(c, revealed, kind) ==
   /\ UNCHANGED idobj
 
 (* a credential for a new account carries an expiry; for an existing account it is bound to that account's address *)
-Applies(p) == p \in {"none", "bitflips", "other_ip", "other_ar_key", "other_global", "swap_ar_data"}
+Applies(p) == p \in {"none", "bitflips", "other_ip", "other_ar_key", "other_global", "swap_ar_data", "extra_sharing_coeff"}
               \/ (p = "other_address" /\ cred[1].kind = "existing") \/ (p = "expiry_passed" /\ cred[1].kind = "new")
 Verify(p) ==
   /\ cred # <<>> /\ Applies(p)
